@@ -191,3 +191,13 @@ def run(ctx: Ctx, rep: Report, tier: str):
     from rules.C02 import C02 as _C02
     _alias(rep, ["C02.R3"], "C04.R12", "a delete is dropped in favour of a pending creation only when the creation is pending on the OTHER side (C02.R3): delete + re-create of "
            "the same name on one side still deletes the old object", 2, lambda: _C02(ctx, rep).r3())
+    from rules.common import entry_paths_match_for_display
+    rep.rule("C04.R13", "rename detection sees case-only renames (C03.R16)", 1)
+    section(rep, lambda: entry_paths_match_for_display(ctx, rep, "C04.R13"))
+    from rules.common import rename_reuse_guard
+    rep.rule("C04.R14", "which entry a rename event belongs to (C05.V18)", 1)
+    section(rep, lambda: rename_reuse_guard(ctx, rep, "C04.R14"))
+    from rules.common import event_application_writes_through
+    _alias(rep, ["C04.tmp"], "C04.R15", "a delete stays deleted when a stale 'exists' event follows it: update_entry turns TRASHED + exists into LIKELY_TRASHED (identity tests on the "
+           "enum member and on True), every other event writes its existence flag through (C14.W11)", 1,
+           lambda: (rep.rule("C04.tmp", "alias", 0), event_application_writes_through(ctx, rep, "C04.tmp")), keep=lambda i: i.key == "update_entry|exists")
